@@ -121,6 +121,8 @@ pub fn load_known() -> Vec<KnownEntry> {
 pub fn finish(ctx: &CheckCtx, mut res: CheckResult) -> ! {
     let known = load_known();
     let dir = format!("/verif/replays/{}", ctx.id);
+    // replay files describe this run only
+    let _ = std::fs::remove_dir_all(&dir);
     let _ = std::fs::create_dir_all(&dir);
     let _ = std::fs::create_dir_all("/verif/evidence");
 
